@@ -28,8 +28,9 @@ def ctl(families_q, families_t, dq, dt, rule, required, nontrivial=None, emit_q=
 
 PLANS = {
     "C01": ctl(["reap", "force"], ["reap", "force", "cordon"],
-               [D("reap", odd=True, faults=12), D("mix", lag=True, odd=True)],
-               [D("reap", n=60, steps=100, procs=8, odd=True, faults=12), D("mix", n=60, steps=100, procs=8, lag=True, odd=True)],
+               [D("reap", odd=True, faults=12), D("mix", lag=True, odd=True), D("cycle", n=20, steps=90, groups=1, faults=3, dry=0)],
+               [D("reap", n=60, steps=100, procs=8, odd=True, faults=12), D("mix", n=60, steps=100, procs=8, lag=True, odd=True),
+                D("cycle", n=80, steps=120, procs=8, groups=1, faults=3, dry=0)],
                "cases: every (state, fault set) sampled from the TLC-explored graphs replayed as one real scan, plus scans of seeded random histories; "
                "non-trivial: a scan in which a node was removed under clause (a), (b) or (c), or a tainted / force-tainted / cordoned node was kept; distinct by (pre-state, fault set)",
                ["C01:removed-a", "C01:removed-b", "C01:removed-c", "C01:kept-soft-not-passed", "C01:kept-busy-before-hard",
